@@ -107,9 +107,17 @@ def gen_collection(rng, n=None, uniform=None):
 
 
 def gen_times(rng, n):
-    kind = rng.choice(["range", "ints", "neg", "floats"])
+    kind = rng.choice(["range", "ints", "neg", "floats", "mixed"])
     if kind == "range":
         return list(range(n))
+    if kind == "mixed":
+        # an integer first time stamp (e.g. the default 0) followed by non-integer floats, also negative
+        t0 = rng.choice([0, 0, -3, 2])
+        out, t = [t0], float(t0)
+        for _ in range(n - 1):
+            t += rng.choice([0.25, 0.5, 1.5, 0.125])
+            out.append(t)
+        return out[:n]
     if kind == "ints":
         t, out = rng.randrange(-5, 5), []
         for _ in range(n):
@@ -137,8 +145,8 @@ def safe_eq(a, b) -> bool:
 
 
 def try_write(obj, path):
-    if os.path.exists(path):
-        os.remove(path)
+    # the file of the previous case is deliberately NOT removed: saving to an existing path must replace its content
+    # (a shorter collection written over a longer one must not leave stale members behind)
     try:
         obj.to_file(path)
         return "ok"
